@@ -13,6 +13,7 @@ def run(ctx):
     ctx.assumptions += ["the consumer's callback is the only observer; items are interned by content (node ids for traversals)"]
     ctx.model_check("MC_Iter", "MC_Iter_good", workers=4)
     ctx.model_check("MC_Stream", "MC_Stream_t7" if thorough else "MC_Stream_t", workers=16, heap="12g", timeout=3400)
+    cross.lineloop(ctx, lambda c: c["stop"] > 0, "stops")
     cross.leg(ctx, "stop-drive", [200 if thorough else 6])
     ctx.exhaustive = True
 
